@@ -40,7 +40,7 @@ REAL = ['circuits.core.manager.Manager.run/tick/_fire/fireEvent/_flush/_dispatch
 STUBBED = ['threading.RLock/Event/Thread -> scheduler-aware doubles', 'select module -> non-blocking shim', 'time -> virtual clock',
            'atexit/signal registration -> no-ops']
 ASSUMPTIONS = ['pre-emption at source-line granularity of the monitored modules', 'firing threads start firing once manager.running is true']
-PROBES = ['preempted', 'fired-while-loop-idle', 'cfg:fallback', 'cfg:Select', 'cfg:Poll', 'cfg:EPoll', 'timed-idle-wait',
+PROBES = ['preempted', 'bystander-manager', 'fired-while-loop-idle', 'cfg:fallback', 'cfg:Select', 'cfg:Poll', 'cfg:EPoll', 'timed-idle-wait',
           'family:bounded', 'family:site', 'family:walk', 'family:pair']
 TIERS = {
     'quick': dict(runs=9000, wall=30, chunk=25, cfg=dict(max_firers=3, max_fires=3)),
@@ -76,7 +76,12 @@ def run_one(ctx):
     fires = tuple(ch.randint(1, cfg['max_fires'], 'nfires') for _ in range(nf))
     extra = ch.weighted([3, 1, 1, 1], 'extra')   # none | one-shot timer | persistent timer | suspended task
     tint = ch.choice([0.05, 0.1, 1.0], 'timer-int') if extra in (1, 2) else 0
-    conf = (gen, nf, fires, extra, tint)
+    # a second, unrelated manager running in the same process (its own loop thread, woken by its own firing thread): nothing it does
+    # may take a wake-up away from the manager under test
+    other = ch.weighted([2, 1] if gen == 'fallback' else [9, 1], 'bystander')
+    if other:
+        ctx.stat('bystander-manager')
+    conf = (gen, nf, fires, extra, tint, other)
     if conf not in _HORIZONS:
         # dry run without pre-emption: per-thread step counts (a pure function of the configuration; draws nothing)
         from simcore.runner import RunCtx
@@ -102,7 +107,7 @@ def _execute(ctx, conf, horizons):
 
 
 def _run(ctx, ch, sched, conf, horizons):
-    gen, nf, fires, extra, tint = conf
+    gen, nf, fires, extra, tint, other = conf
     dispatched = []
     returned = []
     started = []
@@ -194,6 +199,16 @@ def _run(ctx, ch, sched, conf, horizons):
         return firer
 
     fnames = ['f%d' % i for i in range(nf)]
+    bnames = ['bloop', 'bfirer'] if other else []
+    if other:
+        bapp = Component()
+
+        def bfirer():
+            sched.wait_until(lambda: bapp.running and app.running and bool(started), 'b-running')
+            for i in range(2):
+                bapp.fire(tock('b%d' % i))
+                bl = sched.threads['bloop']
+                sched.wait_until(lambda: bl.state == 'done' or (bl.state == 'blocked' and bl.idle_wait), 'b-idle')
 
     def driver():
         sched.wait_until(lambda: all(sched.threads[n].state == 'done' for n in fnames), 'firers-done')
@@ -203,14 +218,21 @@ def _run(ctx, ch, sched, conf, horizons):
         ctx.trace('driver: stop()')
         app.stop()
         sched.wait_until(lambda: lt.state == 'done', 'loop-done')
+        if other:
+            sched.wait_until(lambda: sched.threads['bfirer'].state == 'done', 'bfirer-done')
+            bapp.stop()
+            sched.wait_until(lambda: sched.threads['bloop'].state == 'done', 'bloop-done')
 
     sched.spawn(loop_name, loop)
+    if other:
+        sched.spawn('bloop', bapp.run)
+        sched.spawn('bfirer', bfirer)
     for n, k in zip(fnames, fires):
         sched.spawn(n, make_firer(n, k))
     sched.spawn('driver', driver, prio=99)
 
     # ---- schedule
-    names = [loop_name] + fnames
+    names = [loop_name] + fnames + bnames
     prios = ch.permute(list(range(len(names))), 'prio')
     for n, p in zip(names, prios):
         sched.threads[n].prio = p
@@ -229,12 +251,12 @@ def _run(ctx, ch, sched, conf, horizons):
         ctx.stat('family:site')
         for _ in range(ch.randint(1, 3, 'd')):
             t = ch.choice(names, 'site-thread')
-            if t == loop_name:
+            if t in (loop_name, 'bloop'):
                 fn = ch.choice(LOOP_SITES, 'site-fn')
                 nth = 1 + ch.draw(LOOP_SITES_N[fn] * (total + 2), 'site-nth')
             else:
                 fn = ch.choice(FIRER_SITES, 'site-fn')
-                nth = 1 + ch.draw(FIRER_SITES_N[fn] * fires[fnames.index(t)], 'site-nth')
+                nth = 1 + ch.draw(FIRER_SITES_N[fn] * (fires[fnames.index(t)] if t in fnames else 2), 'site-nth')
             others = [n for n in names if n != t]
             sched.site_plan[(t, fn, nth)] = ch.choice(others, 'site-target')
     elif fam == 2:
@@ -245,10 +267,16 @@ def _run(ctx, ch, sched, conf, horizons):
         # stopped inside fire(), the loop goes to sleep, the firing thread finishes
         ctx.stat('family:pair')
         f = ch.choice(fnames, 'pair-firer')
-        i = 1 + ch.draw(max(1, horizons['first_sleep']), 'pair-loop-step')
+        if ch.chance(1, 2, 'pair-near-sleep'):
+            # the last few lines before the loop blocks for the first time (the dry run's count; exact unless events arrive earlier)
+            i = max(1, horizons['first_sleep'] - ch.weighted([3, 2, 2, 1, 1, 1, 1, 1, 1, 1], 'pair-before-sleep'))
+        else:
+            i = 1 + ch.draw(max(1, horizons['first_sleep']), 'pair-loop-step')
         j = 1 + ch.draw(max(1, horizons['steps'][f]), 'pair-firer-step')
         sched.plan[(loop_name, i)] = f
-        sched.plan[(f, j)] = loop_name
+        back = ch.choice([loop_name, 'bfirer', None], 'pair-back') if other else loop_name
+        if back is not None:
+            sched.plan[(f, j)] = back
         if ch.chance(1, 3, 'pair-more'):
             sched.plan.update(simthreads.make_plan(ch, {n: horizons['steps'][n] for n in names}, 1, names))
 
